@@ -95,7 +95,21 @@ def deadline_effects(seg):
     return [e for e in seg.effects if e.kind == 'DEADLINE']
 
 
+def check_stale_positions(res, prop, cm, roles, m, seg):
+    """a position computed with std::prev / std::next before a list was re-linked and stored into an element afterwards names the
+    neighbour of then: the element's stored position no longer denotes its own node"""
+    for e in seg.effs('STALE_POS'):
+        fe = seg.L.field_of_elem(e.loc)
+        if fe is None or fe[1] not in roles.backptrs:
+            continue
+        res.ob('R-REFILE-ON-UPDATE', ok=False)
+        V(res, prop, 'R-REFILE-ON-UPDATE', cm, where_of(m, seg), 'stored position %s computed before the list was re-linked' % fe[1], e.site,
+          'path [%s]: %s := %s was evaluated before the splice / erase that follows it in the code: it denotes another entry\'s node'
+          % (' '.join(seg.valuation()), show(e.loc), show(e.val)))
+
+
 def check_refile(res, prop, cm, roles, m, b):
+    check_stale_positions(res, prop, cm, roles, m, b.seg)
     """R-REFILE-ON-UPDATE / deadline written on every write path, ttl structure keyed/positioned consistently"""
     seg = b.seg
     effs = ops.body_effects(b, roles)
@@ -137,7 +151,7 @@ def check_refile(res, prop, cm, roles, m, b):
             if cls == 'UPDATE':
                 mv = [e for e in effs if e.kind == 'AUX_MOVE' and e.aux == aux]
                 good = [e for e in mv if is_end_of(e.dest, aux) and e.nargs == 3]
-                if not good:
+                if not good and not already_last(seg, dl.ent, aux):
                     ok, why = False, 'updated entry is not moved to the back of the ttl list'
             else:
                 add = [e for e in effs if e.kind == 'AUX_ADD' and e.aux == aux]
@@ -290,6 +304,16 @@ def check_purge_shape(res, prop, cm, roles, m, top):
             V(res, prop, 'R-PURGE-SHAPE', cm, m.key(), why, lp.site, 'purge in %s: %s' % (m.key(), why))
 
 
+def already_last(seg, ent, aux):
+    """the path established that the entry's node is the last node of the ttl list (moving it to the back would change nothing)"""
+    for c in seg.conds_of('IS_AUX_LAST'):
+        if c[2] is True and c[1][1] == aux and isinstance(c[1][0], Ent):
+            e0 = c[1][0]
+            if same_ent(e0, ent) or (ent is not None and ent.kind == 'TTLOF' and ent.arg == e0.key()):
+                return True
+    return False
+
+
 def check_scan_sweep(top, i, sweeps, aux, clocks):
     """two-pass purge: (1) an effect-free scan from the head while now >= deadline(node) leaves B at the first live node;
     (2) a sweep from the head up to B removes each visited node's key; (3) [head, B) is erased from the ttl list"""
@@ -431,7 +455,7 @@ def check_ord_witness_B(an, res, prop, cm, roles):
                         else:
                             # the node must end at the back on this segment
                             mv = [x for x in seg.effects if x.kind == 'AUX_MOVE' and x.aux == aux and is_end_of(x.dest, aux)]
-                            if not mv:
+                            if not mv and not already_last(seg, e.ent, aux):
                                 bad = 'deadline rewritten without moving the node to the back of the ttl list'
                     elif e.kind == 'AUX_ADD' and e.aux == aux:
                         v = e.key
@@ -454,8 +478,11 @@ def ttl_source_ok(cm, roles, m, seg, d):
     if cm.name == 'tlru_cache':
         if d == ('p', 'ttl'):
             return True
-        # range insert: the element's own ttl
+        # range insert: the element's own ttl (range-for element, or *it of an explicit iterator loop over the caller's range)
         if is_ld(d) and d[2][0] == 'get' and d[2][1] == 0 and d[2][2][0] == 'elem':
+            return True
+        if is_ld(d) and d[2][0] == 'get' and d[2][1] == 0 and d[2][2][0] == 'deref' and isinstance(d[2][2][1], tuple) and d[2][2][1][0] == 'lv' \
+                and len(d[2][2][1]) > 4 and d[2][2][1][4] == 'param':
             return True
         return False
     cfg = roles.ttl
@@ -654,6 +681,9 @@ def rule_c17(an, res):
             if k != 'CLEAN':
                 continue
             for top in tops:
+                if ops.nothing_to_do(top):
+                    res.ob('R-CLEAN-LOOP', ok=True)
+                    continue
                 clocks = clock_syms(top)
                 loops = [(lp, segs) for lp, segs in top.loops]
                 ok = True
@@ -684,7 +714,11 @@ def rule_c17(an, res):
                             if not ((ex and ex[0][2] is False and ex[0][0] == 'EXPIRED') or (ne is False and not ex)):
                                 ok, why = False, 'loop is left although the head is expired (or without testing it)'
                     for s in exits:
+                        if not lift.feasible(s)[0]:
+                            continue
                         ne = s.cond('NONEMPTY')
+                        if ne is None and s.cond('AUX_NONEMPTY') is not None:
+                            ne = s.cond('AUX_NONEMPTY')        # the ttl structure is empty exactly when the cache is (RI)
                         ex = [c for c in s.conds if c[0] in ('EXPIRED', 'EXPIRED_STRICT')]
                         fine = (ne is False and not ex) or (ex and ex[0][0] == 'EXPIRED' and ex[0][2] is False)
                         if not fine:
@@ -744,6 +778,9 @@ def check_purge_tally(res, prop, cm, roles, m, top):
     pl = ops.purge_loops(top)
     r = top.ret
     ok = False
+    if not pl and ops.nothing_to_do(top):
+        res.ob('R-CLEAN-TALLY', ok=True)
+        return
     if pl and isinstance(r, tuple) and r[0] == 'lv':
         name = ops.tally_var(r)
         lp, segs = top.loops[pl[0]]
@@ -756,6 +793,15 @@ def check_purge_tally(res, prop, cm, roles, m, top):
             good = [e for e in incs if ops.is_increment(e, name)]
             if len(incs) != want or len(good) != want:
                 ok = False
+    if not ok and pl and isinstance(r, tuple) and r and r[0] == 'bin' and r[1] == '-':
+        # size of the key map (or of the ttl list) before the purge minus its size after it, nothing else removed or added in between
+        def size_of(t):
+            if isinstance(t, tuple) and t and t[0] == 'q' and t[1] == 'size' and t[2] in (top.L.index, THIS(roles.ttl_struct)):
+                return t[2], t[4]
+            return None
+        sa, sb = size_of(r[2]), size_of(r[3])
+        if sa is not None and sb is not None and sa[0] == sb[0] and (sa[1] or 0) < (sb[1] or 0):
+            ok = not [e for e in top.effects if e.kind in ('BIND', 'UNBIND', 'AUX_ADD', 'AUX_DEL')]
     if not ok and pl and isinstance(r, tuple) and r:
         # two-pass purge: every node of [head, B) loses exactly its key (R-PURGE-SHAPE), so distance(head, B) is the number purged
         d = r[2] if r[0] == 'cast' else r
